@@ -15,7 +15,7 @@
              traces = n :: nnb :: L :: cells (NaN = -1; a row never written = nnb*L times -7)
              chan_map = n :: nnb :: cells
              templates = nu :: ngroups :: for each group nnb*L cells 2*nanmedian (all-NaN = -1)
-             loaded_rows = n :: row numbers *)
+             loaded_rows = n :: row numbers, for (labels, indices), (None, None), (labels, None), (None, indices) *)
 From Coq Require Import ZArith List Bool.
 From IBL.lib Require Import PyInt RunLib.
 From IBL.C13 Require Import Model.
@@ -110,6 +110,9 @@ Definition run_extract (r : list Z) : list Z :=
           ++ [zlen (unit_ids P); zlen tr]
           ++ flat_map (template2 mem (Z.to_nat nnb) (Z.to_nat L)) tr
           ++ enc_zlist (load_rows st iw labels indices)
+          ++ enc_zlist (load_rows st iw None None)
+          ++ enc_zlist (load_rows st iw labels None)
+          ++ enc_zlist (load_rows st iw None indices)
       | _, _, _ => [0]
       end
   | _ => [-999]
